@@ -344,7 +344,9 @@ function render(files, scripts, path, data, opts) {
     }
     return null
   }
-  const mkEnv = (d, scope) => Object.assign(Object.create(null), (typeof d === 'object' && d !== null) ? d : {}, scope)
+  // (a data object is an ordinary object: a name that is no field of it but a member of Object.prototype reads that member,
+  //  exactly as `D.toString` does in the generated code and `$.toString` in the JavaScript reference)
+  const mkEnv = (d, scope) => Object.assign({}, (typeof d === 'object' && d !== null) ? d : {}, scope)
 
   function renderList(list0, ctx) {
     // adjacent text nodes of the model are one text run in the source
